@@ -31,6 +31,9 @@ pub enum Action {
     Fail(i32),
     /// write only the first n bytes, then fail with EIO
     Short(usize),
+    /// sleep this many milliseconds inside the blocking closure, then perform the operation normally
+    /// (makes the awaiting future observably pending: a deterministic cancellation point)
+    Delay(u64),
 }
 
 /// One recorded operation
@@ -118,6 +121,10 @@ pub(crate) fn hook_open(kind: Kind, path: &Path) -> Option<IOError> {
     match decide(kind, &path.to_string_lossy(), 0, 0) {
         Some(Action::Fail(errno)) => Some(IOError::from_raw_os_error(errno)),
         Some(Action::Short(_)) => Some(IOError::from_raw_os_error(libc::EIO)),
+        Some(Action::Delay(ms)) => {
+            std::thread::sleep(std::time::Duration::from_millis(ms));
+            None
+        }
         None => None,
     }
 }
@@ -126,6 +133,10 @@ pub(crate) fn hook_bytes(file: &StdFile, kind: Kind, offset: u64, parts: &[&[u8]
     let len: usize = parts.iter().map(|p| p.len()).sum();
     match decide(kind, &path_of(file), offset, len as u64) {
         None => None,
+        Some(Action::Delay(ms)) => {
+            std::thread::sleep(std::time::Duration::from_millis(ms));
+            None
+        }
         Some(Action::Fail(errno)) => Some(Err(IOError::from_raw_os_error(errno))),
         Some(Action::Short(n)) => {
             let mut left = n.min(len);
@@ -146,6 +157,10 @@ pub(crate) fn hook_bytes(file: &StdFile, kind: Kind, offset: u64, parts: &[&[u8]
 pub(crate) fn hook_sync(file: &StdFile) -> Option<IOResult<()>> {
     match decide(Kind::Sync, &path_of(file), 0, 0) {
         None => None,
+        Some(Action::Delay(ms)) => {
+            std::thread::sleep(std::time::Duration::from_millis(ms));
+            None
+        }
         Some(Action::Fail(errno)) => Some(Err(IOError::from_raw_os_error(errno))),
         Some(Action::Short(_)) => Some(Err(IOError::from_raw_os_error(libc::EIO))),
     }
